@@ -27,7 +27,8 @@ CHECKS = {
   tech="Coq proof (induction over histories) on a hand-written model + correspondence check", ref="DESIGN.md 5/C15"),
 }
 EXTRA = json.load(open(V + '/manifest_extra.json')) if os.path.exists(V + '/manifest_extra.json') else {}
-CHECKS.update(EXTRA)
+for k_, v_ in EXTRA.items():
+    v_ = dict(v_); v_['note'] = v_['note']; CHECKS[k_] = v_
 def chk(pid, d):
     return {"property_id": pid, "quick_cmd": "bin/check.py %s --tier quick" % pid, "thorough_cmd": "bin/check.py %s --tier thorough" % pid,
             "evidence_file": "/verif/evidence/%s.json" % pid, "replay_cmd_template": "bin/replay.py {path}", "engine": "coq-proof",
